@@ -277,6 +277,18 @@ pub fn op_name(t: &mut Tape, scope: &mut Scope, cfg: &NameCfg) -> String {
 
 pub fn frag_name(t: &mut Tape, scope: &mut Scope, cfg: &NameCfg) -> String {
     for _ in 0..8 {
+        if t.chance(cfg.keyword_percent / 2) {
+            // `fragment Type on ..`, `fragment Match on ..`: fine as type names, but the member a spread
+            // adds is named after the snake_case image, which is a keyword
+            let k = *t.pick(RUST_KEYWORDS);
+            if !matches!(k, "Self" | "self") {
+                let n = format!("{}{}", k[..1].to_uppercase(), &k[1..]);
+                if scope.try_insert(&n) {
+                    return n;
+                }
+            }
+            continue;
+        }
         let a = *t.pick(FRAG_STEMS);
         let mut words = vec![a];
         if t.chance(30) {
